@@ -197,7 +197,16 @@ def gen(rng, tier, i):
         ph['twin_cycle'] = p.cycle(send(0, 'do dest /g/o;dest /g/m2;%sxco r2 /g/m2 main\r\n' % ('call /g/o warm;' if 'o' in progs else '')))
         ph['typed_cycle'] = p.cycle(send(0, 'do call /g/tp warm;xco t /g/tc main\r\n'))
         ph['fam_cycle'] = p.cycle(send(0, 'do xco f /g/ia av\r\n')); ph['fam_expect'] = fam_value()
+        if zl_len: ph['zl_cycle'] = p.cycle(send(0, 'do dest /g/zl;xco z /g/zl zn\r\n')); ph['zl_expect'] = zl_len
         phases.append(ph)
+    # now and then: a program with #pragma save_binary whose string table holds a constant folded from many literals, around
+    # the 65535 characters that a saved binary can describe
+    zl_len = 0
+    if rng.random() < 0.2:
+        nlit = rng.choice((60, 65, 66, 70)); last = rng.choice((1000, 535, 534, 536, 999))
+        zl_len = (nlit - 1) * 1000 + last
+        lits = ['"%s"' % (chr(97 + k % 26) * 1000) for k in range(nlit - 1)] + ['"%s"' % ('z' * last)]
+        p.file('g/zl.c', '#pragma save_binary\nstring zs() { return ' + ' +\n'.join(lits) + '; }\nint zn() { return strlen(zs()); }\n')
     load_phase.need_connect = True
     load_phase()
     n = rng.randint(2, 7)
@@ -297,6 +306,10 @@ def check(plan, res):
             frombin = any(e.kind == 'fs' and e.rest.startswith('open_r bin/g/ia.b ') and not e.rest.endswith('ret=-1') for e in fev)
             bad('family', 'g/ia (saved binary) <- g/ib (none) <- g/ic1, g/ic2: av() returned %s, the current sources say int:%d (ia loaded from %s)' % (fx[-1][5:], ph['fam_expect'], 'its binary' if frombin else 'source'),
                 'behaviour/inherit-family-stale' if frombin else 'behaviour/inherit-family-wrong')
+        if ph.get('zl_cycle') is not None:
+            zx = [e.rest for e in events(ph['zl_cycle']) if e.kind == 'R' and e.rest.startswith('XR z ')]
+            if zx and zx[-1] != 'XR z int:%d' % ph['zl_expect']:
+                bad('longconst', 'g/zl (saved binary, string constant of %d characters): zn() returned %s' % (ph['zl_expect'], zx[-1][5:]), 'behaviour/long-constant')
         progs = ph['progs']
         inh = ph['inherit']
         def chain(x):
